@@ -6,6 +6,8 @@ import SC.Proto
 import SC.Buffer
 import SC.FS
 import SC.Conc
+import SC.Attr
+import SC.Generated.Tables
 open SC SC.Proto
 
 structure Drv where
@@ -250,11 +252,30 @@ def brQuery (toks : List String) : String :=
     | none => "bad-query"
   | _ => "bad-query"
 
+/-- `attr <family> <get|set|del> <dunder 0/1> <key>`: routing of an attribute-syntax access on
+the family's dict class, from the regenerated class table -/
+def attrQuery (toks : List String) : String :=
+  match toks with
+  | [f, op, du, key] =>
+    match f.toNat?, parseKey key with
+    | some fi, some (.s k) =>
+      match (Generated.families[fi]?).bind (·.dictClass) with
+      | some ci =>
+        let c := Attr.Cls.ofInfo ci
+        let r := match op with
+          | "get" => Attr.getRoute c (du == "1") k
+          | _ => Attr.setRoute c (du == "1") k
+        "route: " ++ (match r with | .item => "item" | .object => "object" | .attributeError => "attributeError")
+      | none => "bad-query"
+    | _, _ => "bad-query"
+  | _ => "bad-query"
+
 def step (d : Drv) (line : String) : Drv × List String :=
   let toks := (line.splitOn " ").filter (· ≠ "")
   match d.bst, toks with
   | _, "fs" :: rest => (d, [fsQuery rest])
   | _, "br" :: rest => (d, [brQuery rest])
+  | _, "attr" :: rest => (d, [attrQuery rest])
   | some b, t :: ts =>
     if t == "reset" || t == "breset" || t == "flt" || t == "fam" || t == "#" then stepL1 d toks
     else bstep d b (t :: ts)
